@@ -42,7 +42,10 @@ def get_go_type_from_attributes(molecule, prefix, **kwargs):
     """
     for node in molecule.nodes:
         attrs = molecule.nodes[node]
-        if attributes_match(attrs, kwargs) and attrs['atype'].startswith(prefix):
+        # The type of a Go virtual site is "<prefix>_<resid>". Matching on the
+        # bare prefix would also select regular particles whose type happens
+        # to start with the molecule name (e.g. a molecule called "P2").
+        if attributes_match(attrs, kwargs) and attrs['atype'].startswith(prefix + '_'):
             yield attrs['atype']
     else:
         resid = kwargs['resid']
